@@ -14,8 +14,18 @@ TRUSTED = [
     "translator/c07.py (python ast -> Gen_C07.v `src_cfg`): which rows create_params of the three modes builds, how "
     "_run_pipelines_array_to_datatree binds the tuple to the keys, which mapping it zips, whether "
     "_get_short_dimension_names_new / _get_parameter_types keep the order of the enabled steps; fails closed",
+    "translator/c07.py, pickle rows (`src_pickle_hooks`): for every class with __getstate__/__setstate__ under "
+    "pyxel/{pipelines,detectors,data_structure,outputs,exposure,observation,calibration} how each attribute __init__ sets "
+    "comes back (AWhole / ARecreated / ARebuilt kept / AMissing), whether the class has a __deepcopy__ of its own; that a "
+    "kept constructor keyword of a rebuilt ModelFunction carries the value it was built with is believed, not checked; "
+    "ModelGroup.__iter__/run row; __reduce__ & co fail closed",
+    "Python's default pickling and copy.deepcopy restore an object without hooks attribute by attribute, and deepcopy "
+    "goes through __getstate__/__setstate__ of a class without __deepcopy__ (modelled, not verified); "
+    "dask.multiprocessing.get driven by an in-process executor serialises and unpickles every task exactly as with "
+    "worker processes (the same cloudpickle dumps / loads calls; real 2-process pools are sampled too)",
     "correspondence harness: harness/props/c07.py generators, harness/drivers/c07.py, probes/verif_probes_c07.py "
-    "(base-16 code of the received arguments in the pixel bucket; decoded by the driver)",
+    "(base-16 code of the received arguments in the pixel bucket, execution trace and detector/readout settings in two "
+    "more columns; decoded by the driver)",
     "modelled, not verified: pandas MultiIndex.from_product/to_xarray (levels sorted, cell = its own label, repeated "
     "value refused), Python zip, xarray.apply_ufunc + dask (every chunk computed once and placed by index -- sampled "
     "under 6 scheduler configurations with data-dependent delays), ThreadPoolExecutor.map order, numpy's global "
@@ -639,6 +649,8 @@ def run(ctx: Ctx):
         "(C02-ObsTimes: the non-dask path ignores them)",
         "each run is a function of (copy of the processor, parameter values) -- C06; checked here only through the "
         "trace counter the probe leaves on the detector it is given",
+        "a lossy pickle hook on a class WITHOUT its own __deepcopy__ changes every deep copy alike (sequential = parallel): "
+        "reported through the broken theorem / fail-closed translator, without a failing input of THIS property",
         "dask executes every chunk once and places it by index (not proved; sampled under the schedulers listed)",
         "the thread-RNG defect is exhibited on the real code only by the forced schedule (barrier probes), not by the theorem",
     ]
@@ -747,9 +759,20 @@ META = dict(
         "mapping iterates in the tuples' order (soundness + necessity); assembly independent of every completion order, "
         "rank/unrank bijective for any shape, island k created from seed k, DaskBFE chunking; interleaving model of "
         "save/seed/draw/restore on one shared generator (threads: REFUTED with a witness schedule, open finding; one "
-        "worker or one generator per worker: always the sequential outcome). That the implementation behaves like the "
+        "worker or one generator per worker: always the sequential outcome). WHAT A WORKER RECEIVES (round 2b): the rows of "
+        "every __getstate__/__setstate__ of the classes that travel to workers are regenerated; proved: when every "
+        "attribute of every hooked class comes back (hooks_faithful, re-checked against the regenerated rows by "
+        "C07_pickle_hooks_as_coded) the pipeline a task works on -- pickled (process pool) or deep-copied (sequential "
+        "path, threads) -- is the caller's, for every pipeline and every assignment of enabled flags, and the end-to-end "
+        "statement holds under every scheduler kind (C07_any_scheduler_as_coded); deep copies bypass the hooks of a class "
+        "with its own __deepcopy__; a group rebuilt from definitions without `enabled` executes every model and differs "
+        "from the sequential run as soon as one model is switched off. That the implementation behaves like the "
         "model is established by correspondence (testing): the same observation run with_dask=False and True under "
-        "synchronous / 1,2,4,16 threads / 2 processes with data-dependent delays, parameter sets whose short names "
+        "synchronous / 1,2,4,16 threads / 2 processes / dask's process-pool serialisation driven in-process (sync and 4 "
+        "threads) / caller's detector+pipeline sent through pickle or cloudpickle first, with data-dependent delays, "
+        "pipelines holding switched-off models in every group (execution trace of every run), detector and readout "
+        "settings read back by every run, pyxel's own calibration problem evaluated through DaskBFE / DaskIsland by "
+        "workers that received it through pickle, parameter sets whose short names "
         "collide in every position pattern of 1..4 parameters, every result entry (label, values each run RECEIVED per "
         "parameter, trace counter, executions counted), output files vs. index, islands (seeds, first fitness, champions "
         "after an evolution vs. an in-thread reference evolution), DaskBFE values -- compared inside Coq against the "
